@@ -304,7 +304,11 @@ func (t *tracker) clone() *tracker {
 }
 
 func updatedAfter(req *http.Request) int64 {
-	if v := req.URL.Query().Get("updated_after"); v != "" {
+	return updatedAfterString(req.URL.Query().Get("updated_after"))
+}
+
+func updatedAfterString(v string) int64 {
+	if v != "" {
 		if tm, err := time.Parse(time.RFC3339Nano, v); err == nil {
 			return tm.Unix()
 		}
@@ -528,4 +532,90 @@ func (s *server) serve(t *tracker, path string, req *http.Request, page int) (in
 		}
 	}
 	return notFound()
+}
+
+// ---- the interfaces the engine works with (GitLab REST and GitHub GraphQL trackers) ------------
+
+type trackerModel interface {
+	Grow(r *sim.Rand, n int)
+	DeleteUser(ord int) bool
+	Expected() map[string]bugState
+	Ver() int
+	Clk() *int64
+	NUsers() int
+	Collision() string
+	ActionsOf() map[string]int
+	// metadata keys under which the importer stores the tracker's id of an event and of a user
+	MetaKeys() (event, user string)
+}
+
+type endpoint interface {
+	http.RoundTripper
+	resetRound(f *fault)
+	round() (requests []string, fired int)
+	faultKey(st *sim.Step) string
+}
+
+func (t *tracker) Grow(r *sim.Rand, n int)       { t.grow(r, n) }
+func (t *tracker) DeleteUser(ord int) bool       { return t.deleteUser(ord) }
+func (t *tracker) Expected() map[string]bugState { return t.expected() }
+func (t *tracker) Ver() int                      { return t.Version }
+func (t *tracker) Clk() *int64                   { return &t.Clock }
+func (t *tracker) NUsers() int                   { return len(t.Users) }
+func (t *tracker) Collision() string {
+	if c := t.collision(); c != "" {
+		return "with a tracker id shared between GitLab's separate id sequences (" + c + ")"
+	}
+	return ""
+}
+func (t *tracker) MetaKeys() (string, string)    { return "gitlab-id", "gitlab-id" }
+func (t *tracker) ActionsOf() map[string]int {
+	out := map[string]int{}
+	for _, is := range t.Issues {
+		out[fmt.Sprint(is.IID)] = is.Actions
+	}
+	return out
+}
+
+func (s *server) round() ([]string, int) {
+	s.mu.Lock()
+	defer s.mu.Unlock()
+	n := 0
+	for _, v := range s.Fired {
+		n += v
+	}
+	return append([]string(nil), s.Requests...), n
+}
+
+func (s *server) faultKey(st *sim.Step) string {
+	t := s.t
+	ps := s.pageSize
+	pages := func(n int) int {
+		p := (n + ps - 1) / ps
+		if p < 1 {
+			p = 1
+		}
+		return p
+	}
+	if len(t.Issues) == 0 {
+		return "/projects/" + projectID + "/issues?page=1"
+	}
+	is := t.Issues[st.B%len(t.Issues)]
+	switch st.K {
+	case "issues":
+		return fmt.Sprintf("/projects/%s/issues?page=%d", projectID, st.N%pages(len(t.Issues))+1)
+	case "notes":
+		return fmt.Sprintf("/projects/%s/issues/%d/notes?page=%d", projectID, is.IID, st.N%pages(len(is.Notes))+1)
+	case "labels":
+		return fmt.Sprintf("/projects/%s/issues/%d/resource_label_events?page=%d", projectID, is.IID, st.N%pages(len(is.Labels))+1)
+	case "states":
+		return fmt.Sprintf("/projects/%s/issues/%d/resource_state_events?page=%d", projectID, is.IID, st.N%pages(len(is.States))+1)
+	default:
+		var ids []int
+		for id := range t.Users {
+			ids = append(ids, id)
+		}
+		sort.Ints(ids)
+		return fmt.Sprintf("/users/%d?page=1", ids[st.B%len(ids)])
+	}
 }
